@@ -74,13 +74,14 @@ func genSystematic(out *hx.Out, prop string) {
 	}
 }
 
-// many tables: duplicates and ordering of table sets beyond 64 tables
-func genManyTables(out *hx.Out, prop string) {
-	out.P("#case many-%s", prop)
-	out.P("tables 67")
-	out.P("actor x w 66,64,66,64,3 64,3 commit - -")
-	out.P("actor y w 65,64,65 65 commit - -")
-	out.P("watch 64")
+// many tables: duplicates and ordering of table sets whose positions differ by a multiple of the machine word
+// (and of a few words): b = 64, 256, 1024
+func genManyTables(out *hx.Out, prop string, b int) {
+	out.P("#case many%d-%s", b, prop)
+	out.P("tables %d", b+3)
+	out.P("actor x w %d,%d,%d,%d,3,0 %d,3 commit - -", b+2, b, b+2, b, b)
+	out.P("actor y w %d,%d,%d %d commit - -", b+1, b, b+1, b+1)
+	out.P("watch %d", b)
 	for k := 0; k < 4; k++ {
 		out.P("step x")
 	}
@@ -97,8 +98,10 @@ func genManyTables(out *hx.Out, prop string) {
 }
 
 func (e *eng) Gen(r *hx.Rand, n int, tier string, prop string, out *hx.Out) {
-	genManyTables(out, prop)
+	genManyTables(out, prop, 64)
+	genManyTables(out, prop, 256)
 	if tier == "thorough" {
+		genManyTables(out, prop, 1024)
 		genSystematic(out, prop)
 	}
 	for c := 0; c < n; c++ {
